@@ -113,8 +113,8 @@ func NewModelConsensus(sh *SharedPinset, self peer.ID) *ModelConsensus {
 
 var ErrConsensus = errors.New("model consensus: injected commit failure")
 
-func (c *ModelConsensus) SetClient(*rpc.Client)            {}
-func (c *ModelConsensus) Shutdown(context.Context) error   { c.down = true; return nil }
+func (c *ModelConsensus) SetClient(*rpc.Client)                 {}
+func (c *ModelConsensus) Shutdown(context.Context) error        { c.down = true; return nil }
 func (c *ModelConsensus) Ready(context.Context) <-chan struct{} { return c.ready }
 
 func (c *ModelConsensus) log(op string, p *api.Pin) error {
@@ -324,12 +324,12 @@ func (m *ModelMonitor) Store() *metrics.Store { return m.store }
 
 // ModelTracker implements ipfscluster.PinTracker by recording.
 type ModelTracker struct {
-	mu    sync.Mutex
-	self  peer.ID
+	mu   sync.Mutex
+	self peer.ID
 	// Client is the Cluster's own RPC client (handed to every component):
 	// the only way to make "local" calls to RPCClosed endpoints.
 	Client *rpc.Client
-	Calls []string
+	Calls  []string
 	// Status to report per cid (default pinned)
 	Statuses map[string]api.TrackerStatus
 }
@@ -351,6 +351,7 @@ func (t *ModelTracker) Untrack(ctx context.Context, c cid.Cid) error {
 	t.mu.Unlock()
 	return nil
 }
+
 // SetStatus makes the tracker report st for c from now on.
 func (t *ModelTracker) SetStatus(c cid.Cid, st api.TrackerStatus) {
 	t.mu.Lock()
@@ -423,9 +424,9 @@ func (i *ModelIPFSConn) PinLsCid(ctx context.Context, p *api.Pin) (api.IPFSPinSt
 func (i *ModelIPFSConn) PinLs(ctx context.Context, f string) (map[string]api.IPFSPinStatus, error) {
 	return i.M.Ls(f)
 }
-func (i *ModelIPFSConn) ConnectSwarms(context.Context) error          { return nil }
+func (i *ModelIPFSConn) ConnectSwarms(context.Context) error           { return nil }
 func (i *ModelIPFSConn) SwarmPeers(context.Context) ([]peer.ID, error) { return nil, nil }
-func (i *ModelIPFSConn) ConfigKey(string) (interface{}, error)        { return nil, errors.New("no such key") }
+func (i *ModelIPFSConn) ConfigKey(string) (interface{}, error)         { return nil, errors.New("no such key") }
 func (i *ModelIPFSConn) RepoStat(context.Context) (*api.IPFSRepoStat, error) {
 	return &api.IPFSRepoStat{RepoSize: 1000, StorageMax: 1000000}, nil
 }
